@@ -42,7 +42,7 @@ CHECKS = {
    note="Independent of which matching the implementation chooses (unique marker per individual). Jobs unset; schedules are C11's business. Two known findings share the root cause 'no pointer rewriting'; reference findings are collected per case so they cannot mask other findings."),
  "C11": dict(engine="E1", category="model_checking", design_ref="§3.1, §4 C11",
    technique="stateless model checking of the implementation: controlled cooperative scheduler + delay-bounded exhaustive schedule enumeration (iterative deviation bounding) over the AST-instrumented real code, with a vector-clock happens-before race monitor",
-   text="The real IndividualNodes.Compare pipeline (four goroutine stages, three worker pools, polling select, two sync.Map sent-sets, a mutex-protected counter) is rewritten by tools/vinstr at check time and run under engine/vsched on 12 tiny colliding input pairs x Jobs {0,1,2,3,(8,16)} x thresholds {0,default,1} x channel capacity {real,1} x sync.Map range order x three base schedulers; every schedule with at most d deviations (quick: d=2 on the main configuration, d=1 on the option grid; thorough: one more) runs to completion and is judged for termination (deadlock/livelock), valid one-to-one matching, justified pairs, equality with the sequential result when tie-free, and data races (happens-before monitor over instrumented field/variable/map accesses).",
+   text="The real IndividualNodes.Compare pipeline (four goroutine stages, three worker pools, polling select, two sync.Map sent-sets, a mutex-protected counter) is rewritten by tools/vinstr at check time and run under engine/vsched on 14 tiny colliding input pairs x Jobs {0,1,2,3,(8,16)} x thresholds {0,default,1} x channel capacity {real,1} x sync.Map range order x three base schedulers; every schedule with at most d deviations (quick: d=2 on the main configuration, d=1 on the option grid; thorough: one more) runs to completion and is judged for termination (deadlock/livelock), valid one-to-one matching, justified pairs, equality with the sequential result when tie-free, and data races (happens-before monitor over instrumented field/variable/map accesses).",
    note="Scheduling points are the hooked synchronisation operations; races are reported rather than explored. nodeCache/pointerCache are quiet maps with run-time-checked side conditions (full_maps configurations make them points). Replay determinism is asserted per configuration. GOMAXPROCS is not a dimension (the scheduler produces every interleaving of hooked operations). The CLI 'gedcom diff' hand-off is not yet driven."),
  "C12": dict(engine="E3", category="exploration", design_ref="§4 C12",
    technique="bounded-exhaustive enumeration of all operand pairs over small string alphabets, a date window, a finite individual universe x option grid, small lists and family graphs, against range/symmetry/identity/monotonicity laws",
